@@ -4,6 +4,7 @@
    the generated `Compio.Gen.OpenFlags.openFlags`. -/
 import Compio.Model.BufShape
 import Compio.Model.FileRef
+import Compio.Model.DirUtil
 
 open Compio Compio.BufShape Compio.FileRef
 open Compio.Gen.OpTable (Driver Kind rows)
@@ -366,13 +367,56 @@ def stepD (d : Driver) (s : St) (w : List String) : St × String :=
     | _, _, _ => (s, "bad-op")
   | _ => (s, "bad-op")
 
-def step (s : St × St) (line : String) : (St × St) × String :=
-  if line.startsWith "#case" then (({}, {}), line.trimAscii.toString) else
+/-! ## directory utilities on the tree below `T/` (driver independent) -/
+
+open Compio.DirUtil (Ns)
+
+def parsePath (s : String) : DirUtil.Path := (s.splitOn "/").filter (· ≠ "")
+
+def showUnit : Except Nat Unit → String
+  | .ok _ => "ok"
+  | .error e => s!"err {e}"
+
+def showStat : DirUtil.StatOut → String
+  | .file => "ok file"
+  | .dir => "ok dir"
+  | .link => "ok symlink"
+  | .err e => s!"err {e}"
+
+def stepT (t : Ns) (w : List String) : Option (Ns × String) :=
+  match w with
+  | ["dtouch", p] => let (t', r) := t.touch (parsePath p); some (t', showUnit r)
+  | ["dmkdir", p] => let (t', r) := t.mkdir (parsePath p); some (t', showUnit r)
+  | ["dmkdirall", p] => let (t', r) := t.createDirAll (parsePath p); some (t', showUnit r)
+  | ["dbuild", rec, _mode, p] =>
+    if rec = "1" then let (t', r) := t.createDirAll (parsePath p); some (t', showUnit r)
+    else if rec = "0" then let (t', r) := t.mkdir (parsePath p); some (t', showUnit r)
+    else some (t, "bad-op")
+  | ["drmdir", p] => let (t', r) := t.rmdir (parsePath p); some (t', showUnit r)
+  | ["drm", p] => let (t', r) := t.unlink (parsePath p); some (t', showUnit r)
+  | ["drename", a, b] => let (t', r) := t.rename (parsePath a) (parsePath b); some (t', showUnit r)
+  | ["dlink", a, b] => let (t', r) := t.hardlink (parsePath a) (parsePath b); some (t', showUnit r)
+  | ["dsymlink", target, p] => let (t', r) := t.symlink (parsePath target) (parsePath p); some (t', showUnit r)
+  | ["dstat", p] => some (t, showStat (t.stat true (parsePath p)))
+  | ["dlstat", p] => some (t, showStat (t.stat false (parsePath p)))
+  | ["dtree"] => some (t, s!"ok {joinOr t.listing}")
+  | _ => none
+
+structure State where
+  iour : St := {}
+  poll : St := {}
+  tree : Ns := {}
+
+def step (s : State) (line : String) : State × String :=
+  if line.startsWith "#case" then ({}, line.trimAscii.toString) else
   let w := words line
-  let (s1, o1) := stepD .iour s.1 w
-  let (s2, o2) := stepD .poll s.2 w
-  ((s1, s2), if o1 = o2 then o1 else s!"iour={o1} poll={o2}")
+  match stepT s.tree w with
+  | some (t, o) => ({ s with tree := t }, o)
+  | none =>
+    let (s1, o1) := stepD .iour s.iour w
+    let (s2, o2) := stepD .poll s.poll w
+    ({ s with iour := s1, poll := s2 }, if o1 = o2 then o1 else s!"iour={o1} poll={o2}")
 
 end C08
 
-def main : IO Unit := Compio.stdinLoop C08.step (({}, {}) : Compio.FileRef.St × Compio.FileRef.St)
+def main : IO Unit := Compio.stdinLoop C08.step ({} : C08.State)
